@@ -60,6 +60,13 @@ class AssignmentSet:
     def __len__(self):
         return len(self._items)
 
+    def __eq__(self, other):
+        if not isinstance(other, AssignmentSet):
+            return NotImplemented
+        return self._items == other._items
+
+    __hash__ = None
+
     def pop(self):
         return self.decode_item(self._items.pop())
     
